@@ -23,7 +23,8 @@ KINDS = ["win", "win", "win", "place", "eachway", "eachway", "twin", "line", "wi
 def plan(tier, seed):
     n = 6000 if tier == "quick" else 70000
     # directed case for the listed finding C08-line-tie (struck line == result, both sides on one fill)
-    return [{"seed": seed, "idx": 0, "kind": "line", "force_tie": True}] + [{"seed": seed, "idx": i, "kind": KINDS[i % len(KINDS)]} for i in range(1, n)]
+    # ... and for C08-line-struck-at-zero (a bet struck at the line 0.0)
+    return [{"seed": seed, "idx": 0, "kind": "line", "force_tie": True}, {"seed": seed, "idx": 1, "kind": "line", "force_zero": True}] + [{"seed": seed, "idx": i, "kind": KINDS[i % len(KINDS)]} for i in range(2, n)]
 
 
 def _clients(rng):
@@ -38,7 +39,9 @@ def build(desc):
     clients = _clients(rng)
     case = {"seed": desc["seed"], "idx": desc["idx"], "clients": clients}
     if kind == "line":
-        lo, hi, iv = rng.choice(((0.5, 100.5, 1.0), (1.0, 60.0, 1.0), (0.5, 20.5, 0.5)))
+        lo, hi, iv = rng.choice(((0.5, 100.5, 1.0), (1.0, 60.0, 1.0), (0.0, 60.0, 1.0), (0.5, 20.5, 0.5)))
+        if desc.get("force_zero"):
+            lo, hi, iv = 0.0, 60.0, 1.0
         mf = G.MarketFile(mid, [(5000, 0, None)], market_type="TOTAL_POINTS_LINE", betting_type="LINE", ladder="LINE_RANGE", line=(lo, hi, iv), bsp=False)
         prices = L.line_prices(lo, hi, iv)
         mid_i = rng.randrange(2, len(prices) - 2)
@@ -55,11 +58,13 @@ def build(desc):
         struck = []
         for j in range(rng.randint(1, 4)):
             pr = prices[max(0, min(len(prices) - 1, mid_i + rng.randint(-2, 2)))]
+            if desc.get("force_zero"):
+                pr = 0.0
             sz = rng.choice((2.0, 5.0, 3.33))
             struck.append(pr)
             for side in ("BACK", "LAY") if desc.get("force_tie") else rng.choice((("BACK", "LAY"), ("BACK",), ("LAY",))):
                 actions.append({"m": mid, "at": 0, "op": "place", "ref": "l%d%s" % (j, side), "sel": [5000, 0], "side": side, "price": pr, "size": sz, "ladder": "LINE_RANGE", "line_info": info})
-        res = struck[0] if desc.get("force_tie") else rng.choice((struck[0], struck[0] + iv, struck[0] - iv, prices[0], prices[-1], None))
+        res = struck[0] if desc.get("force_tie") else 3.0 if desc.get("force_zero") else rng.choice((struck[0], struck[0] + iv, struck[0] - iv, prices[0], prices[-1], None))
         case["line_results"] = {mid: res} if res is not None else {}
         for c in clients:
             c["full_match"] = True
